@@ -586,3 +586,247 @@ Lemma tokenize_forest f in_p :
 Proof.
   intro H. unfold tokenize. rewrite (run_forest f in_p false [] H). now rewrite app_nil_r, rev_involutive.
 Qed.
+
+(** * Newline normalisation is the identity on the printer's output *)
+Definition no_cr (s : bytes) : bool := forallb (fun c => negb (c =? 13)) s.
+
+Lemma normalize_no_cr s : no_cr s = true -> normalize_newlines s = s.
+Proof.
+  induction s as [|c s IH]; intro H; [reflexivity|].
+  cbn [no_cr forallb] in H. apply andb_true_iff in H as [Hc Hs].
+  cbn [normalize_newlines]. apply negb_true_iff in Hc. rewrite Hc. now rewrite (IH Hs).
+Qed.
+
+Lemma no_cr_app a b : no_cr (a ++ b) = no_cr a && no_cr b.
+Proof. apply forallb_app. Qed.
+
+Lemma text_ok_no_cr s : text_ok s = true -> no_cr s = true.
+Proof.
+  induction s as [|c s IH]; intro H; [reflexivity|].
+  cbn [text_ok forallb] in H. apply andb_true_iff in H as [Hc Hs].
+  cbn [no_cr forallb]. unfold char_ok in Hc. apply andb_true_iff in Hc as [_ Hc]. rewrite Hc. apply (IH Hs).
+Qed.
+
+Lemma no_cr_esc_attr s : no_cr s = true -> no_cr (esc_attr s) = true.
+Proof.
+  induction s as [|c s IH]; intro H; [reflexivity|].
+  cbn [no_cr forallb] in H. apply andb_true_iff in H as [Hc Hs].
+  cbn [esc_attr flat_map]. fold (esc_attr s). rewrite no_cr_app, (IH Hs), andb_true_r.
+  unfold esc_attr_byte, esc_text_byte.
+  destruct (c =? 34); [reflexivity|]. destruct (c =? 38); [reflexivity|].
+  destruct (c =? 60); [reflexivity|]. destruct (c =? 62); [reflexivity|].
+  cbn [no_cr forallb]. now rewrite Hc.
+Qed.
+
+Lemma no_cr_esc_text s : no_cr s = true -> no_cr (esc_text s) = true.
+Proof.
+  induction s as [|c s IH]; intro H; [reflexivity|].
+  cbn [no_cr forallb] in H. apply andb_true_iff in H as [Hc Hs].
+  cbn [esc_text flat_map]. fold (esc_text s). rewrite no_cr_app, (IH Hs), andb_true_r.
+  unfold esc_text_byte.
+  destruct (c =? 38); [reflexivity|].
+  destruct (c =? 60); [reflexivity|]. destruct (c =? 62); [reflexivity|].
+  cbn [no_cr forallb]. now rewrite Hc.
+Qed.
+
+Lemma name_chars_no_cr n : forallb name_char n = true -> no_cr n = true.
+Proof.
+  induction n as [|c n IH]; intro H; [reflexivity|].
+  cbn [forallb] in H. apply andb_true_iff in H as [Hc Hn].
+  change (no_cr (c :: n)) with (negb (c =? 13) && no_cr n). rewrite (IH Hn), andb_true_r.
+  unfold name_char, is_lower, is_digit, in_range in Hc.
+  rewrite !orb_true_iff, !andb_true_iff, !N.leb_le, N.eqb_eq in Hc.
+  apply negb_true_iff, N.eqb_neq. lia.
+Qed.
+
+Lemma name_ok_no_cr n : name_ok n = true -> no_cr n = true.
+Proof.
+  destruct n as [|c n]; [discriminate|]. unfold name_ok. intro H.
+  apply andb_true_iff in H as [_ H]. now apply name_chars_no_cr.
+Qed.
+
+Lemma no_cr_attrs a :
+  forallb (fun x => name_ok (fst x) && text_ok (snd x)) a = true -> no_cr (attrs_html a) = true.
+Proof.
+  induction a as [|[k v] a IH]; intro H; [reflexivity|].
+  cbn [forallb fst snd] in H. apply andb_true_iff in H as [Hkv Ha]. apply andb_true_iff in Hkv as [Hk Hv].
+  cbn [attrs_html flat_map]. fold (attrs_html a). unfold attr_html. cbn [fst snd].
+  rewrite !no_cr_app, (IH Ha), (name_ok_no_cr _ Hk), (no_cr_esc_attr _ (text_ok_no_cr _ Hv)). reflexivity.
+Qed.
+
+Lemma no_cr_node d : forall in_p, node_ok in_p d = true -> no_cr (ser d) = true.
+Proof.
+  induction d as [s|s|n a ks IH] using dom_ind'; intros in_p Hok.
+  - cbn [node_ok] in Hok. apply andb_true_iff in Hok as [Hs _].
+    apply no_cr_esc_text, text_ok_no_cr, Hs.
+  - reflexivity.
+  - rewrite node_ok_elem in Hok. destruct (kind_of n) as [k|] eqn:Ek; [|discriminate].
+    apply andb_true_iff in Hok as [Hok Hks]. apply andb_true_iff in Hok as [_ Ha].
+    unfold attrs_ok in Ha. apply andb_true_iff in Ha as [Ha _].
+    pose proof (name_ok_no_cr _ (kind_name_ok _ _ Ek)) as Hn.
+    rewrite ser_elem, (kind_void_is_void _ _ Ek). unfold open_tag, close_tag.
+    rewrite !no_cr_app, Hn, (no_cr_attrs _ Ha). cbn [no_cr forallb N.eqb Pos.eqb negb andb].
+    destruct (kind_void k); [reflexivity|].
+    rewrite !no_cr_app, Hn. cbn [no_cr forallb N.eqb Pos.eqb negb andb]. rewrite andb_true_r.
+    revert Hks. generalize (in_p || bytes_eqb n s_p) as b. generalize false as pv.
+    induction IH as [|x ks Hx _ IHks]; intros pv b Hf; [reflexivity|].
+    cbn [forest_ok] in Hf. apply andb_true_iff in Hf as [Hf Hf2]. apply andb_true_iff in Hf as [_ Hf1].
+    cbn [ser_forest]. rewrite no_cr_app, (Hx b Hf1). apply (IHks _ _ Hf2).
+Qed.
+
+Lemma no_cr_forest f : forall in_p pv, forest_ok in_p f pv = true -> no_cr (ser_forest f) = true.
+Proof.
+  induction f as [|x f IH]; intros in_p pv Hf; [reflexivity|].
+  cbn [forest_ok] in Hf. apply andb_true_iff in Hf as [Hf Hf2]. apply andb_true_iff in Hf as [_ Hf1].
+  cbn [ser_forest]. rewrite no_cr_app, (no_cr_node x in_p Hf1). apply (IH _ _ Hf2).
+Qed.
+
+(** * Tree construction rebuilds the forest *)
+Definition push_kids (f : list dom) (st : list frame) : list frame :=
+  match st with
+  | [] => []
+  | fr :: st => {| f_name := f_name fr; f_attrs := f_attrs fr; f_kids := rev f ++ f_kids fr |} :: st
+  end.
+Definition top_text (st : list frame) : bool :=
+  match st with
+  | fr :: _ => match f_kids fr with DText _ :: _ => true | _ => false end
+  | [] => false
+  end.
+
+Lemma push_kids_cons d f st : push_kids (d :: f) st = push_kids f (push_kids [d] st).
+Proof. destruct st as [|fr st]; [reflexivity|]. cbn [push_kids rev f_name f_attrs f_kids]. now rewrite <- !app_assoc. Qed.
+
+Lemma has_open_push n f st : has_open n (push_kids f st) = has_open n st.
+Proof. destruct st; reflexivity. Qed.
+
+Lemma top_text_push d st : st <> [] -> top_text (push_kids [d] st) = is_text_node d.
+Proof. destruct st as [|fr st]; [congruence|]. intros _. destruct d; reflexivity. Qed.
+
+Lemma push_kids_nonempty f st : st <> [] -> push_kids f st <> [].
+Proof. destruct st; [congruence|]. discriminate. Qed.
+
+Lemma build_chars s : forall t n a ks st,
+  text_ok s = true ->
+  fold_left bstep (map TChar s) (Some ({| f_name := n; f_attrs := a; f_kids := DText t :: ks |} :: st)) =
+  Some ({| f_name := n; f_attrs := a; f_kids := DText (t ++ s) :: ks |} :: st).
+Proof.
+  induction s as [|c s IH]; intros t n a ks st Hs.
+  - cbn. now rewrite app_nil_r.
+  - cbn [text_ok forallb] in Hs. apply andb_true_iff in Hs as [Hc Hs].
+    unfold char_ok in Hc. apply andb_true_iff in Hc as [H0 _]. apply negb_true_iff in H0.
+    cbn [map fold_left bstep]. rewrite H0. unfold append_char. cbn [f_kids f_name f_attrs].
+    rewrite (IH (t ++ [c]) n a ks st Hs). now rewrite <- app_assoc.
+Qed.
+
+Lemma build_text s st :
+  text_ok s = true -> s <> [] -> st <> [] -> top_text st = false ->
+  fold_left bstep (map TChar s) (Some st) = Some (push_kids [DText s] st).
+Proof.
+  intros Hs Hne Hst Htop. destruct st as [|fr st]; [congruence|]. destruct s as [|c s]; [congruence|].
+  cbn [text_ok forallb] in Hs. apply andb_true_iff in Hs as [Hc Hs].
+  unfold char_ok in Hc. apply andb_true_iff in Hc as [H0 _]. apply negb_true_iff in H0.
+  cbn [map fold_left bstep]. rewrite H0.
+  assert (E : append_char c (fr :: st) =
+              {| f_name := f_name fr; f_attrs := f_attrs fr; f_kids := DText [c] :: f_kids fr |} :: st).
+  { unfold append_char. cbn [top_text] in Htop. destruct (f_kids fr) as [|[t|t|n a ks] r]; try reflexivity; discriminate. }
+  rewrite E, (build_chars s [c] _ _ (f_kids fr) st Hs). reflexivity.
+Qed.
+
+Lemma pop_until_top n fr st fuel :
+  st <> [] -> bytes_eqb n (f_name fr) = true ->
+  pop_until n (fr :: st) (S fuel) = add_kid (close_frame fr) st.
+Proof.
+  intros Hst Hn. destruct st as [|fr2 st]; [congruence|]. cbn [pop_until]. rewrite Hn. reflexivity.
+Qed.
+
+Lemma add_kid_push d st : add_kid d st = push_kids [d] st.
+Proof. destruct st; reflexivity. Qed.
+
+Lemma build_node d : forall in_p st,
+  node_ok in_p d = true -> st <> [] -> has_open s_p st = in_p ->
+  (is_text_node d = true -> top_text st = false) ->
+  fold_left bstep (toks d) (Some st) = Some (push_kids [d] st).
+Proof.
+  induction d as [s|s|n a ks IH] using dom_ind'; intros in_p st Hok Hst Hp Htop.
+  - cbn [node_ok] in Hok. apply andb_true_iff in Hok as [Hs Hne].
+    apply build_text; auto. destruct s; [discriminate|congruence].
+  - cbn [node_ok] in Hok. destruct s; [|discriminate]. cbn. now rewrite add_kid_push.
+  - rewrite node_ok_elem in Hok. destruct (kind_of n) as [k|] eqn:Ek; [|discriminate].
+    apply andb_true_iff in Hok as [Hok Hks]. apply andb_true_iff in Hok as [Hcp _].
+    rewrite toks_elem, (kind_void_is_void _ _ Ek).
+    cbn [fold_left bstep]. rewrite Ek, Hp.
+    assert (Hnc : closes_p k && in_p = false).
+    { apply negb_true_iff in Hcp. now rewrite andb_comm. }
+    rewrite Hnc.
+    destruct (kind_void k) eqn:Ev.
+    + destruct ks; [|discriminate]. cbn. now rewrite add_kid_push.
+    + rewrite fold_left_app.
+      set (st1 := {| f_name := n; f_attrs := a; f_kids := [] |} :: st).
+      assert (Hf : forall b pv s0, forest_ok b ks pv = true -> s0 <> [] -> has_open s_p s0 = b ->
+                     top_text s0 = pv ->
+                     fold_left bstep (toks_forest ks) (Some s0) = Some (push_kids ks s0)).
+      { clear Hks Htop. induction IH as [|x ks Hx _ IHks]; intros b pv s0 Hf Hs0 Hb Hpv.
+        - destruct s0 as [|fr s0]; [congruence|]. cbn. destruct fr; reflexivity.
+        - cbn [forest_ok] in Hf. apply andb_true_iff in Hf as [Hf Hf2]. apply andb_true_iff in Hf as [Hadj Hf1].
+          cbn [toks_forest]. rewrite fold_left_app, (Hx b s0 Hf1 Hs0 Hb).
+          + rewrite (push_kids_cons x ks). apply (IHks b (is_text_node x)); auto.
+            * now apply push_kids_nonempty.
+            * now rewrite has_open_push.
+            * now apply top_text_push.
+          + intro Hx'. rewrite Hx', andb_true_r in Hadj. apply negb_true_iff in Hadj. congruence. }
+      rewrite (Hf (in_p || bytes_eqb n s_p) false st1 Hks); [| discriminate | | reflexivity].
+      2:{ unfold st1. cbn [has_open existsb f_name]. fold (has_open s_p st).
+          rewrite Hp, orb_comm. f_equal. apply bytes_eqb_sym. }
+      cbn [fold_left bstep]. rewrite Ek. unfold st1. cbn [push_kids f_name f_attrs f_kids].
+      rewrite app_nil_r.
+      assert (Hpop : pop_until n ({| f_name := n; f_attrs := a; f_kids := rev ks |} :: st)
+                       (length ({| f_name := n; f_attrs := a; f_kids := rev ks |} :: st))
+                     = push_kids [DElem n a ks] st).
+      { cbn [length]. rewrite pop_until_top; [|exact Hst|cbn [f_name]; apply bytes_eqb_refl].
+        unfold close_frame. cbn [f_name f_attrs f_kids]. now rewrite rev_involutive, add_kid_push. }
+      apply kind_of_cases in Ek.
+      destruct Ek as [[-> ->]|[[Hn ->]|[[-> ->]|[[_ ->]|[_ ->]]]]]; try discriminate.
+      * (* span *)
+        destruct st as [|fr2 st2]; [congruence|]. cbn [end_ordinary f_name].
+        rewrite bytes_eqb_refl. now rewrite Hpop.
+      * (* block *)
+        assert (Ho : has_open n ({| f_name := n; f_attrs := a; f_kids := rev ks |} :: st) = true).
+        { cbn [has_open existsb f_name]. now rewrite bytes_eqb_refl. }
+        rewrite Ho. now rewrite Hpop.
+      * (* p *)
+        assert (Ho : has_open s_p ({| f_name := s_p; f_attrs := a; f_kids := rev ks |} :: st) = true)
+          by reflexivity.
+        rewrite Ho. now rewrite Hpop.
+Qed.
+
+Lemma build_forest f : forall in_p pv st,
+  forest_ok in_p f pv = true -> st <> [] -> has_open s_p st = in_p -> top_text st = pv ->
+  fold_left bstep (toks_forest f) (Some st) = Some (push_kids f st).
+Proof.
+  induction f as [|x f IH]; intros in_p pv st Hf Hst Hp Hpv.
+  - destruct st as [|fr st]; [congruence|]. cbn. destruct fr; reflexivity.
+  - cbn [forest_ok] in Hf. apply andb_true_iff in Hf as [Hf Hf2]. apply andb_true_iff in Hf as [Hadj Hf1].
+    cbn [toks_forest]. rewrite fold_left_app, (build_node x in_p st Hf1 Hst Hp).
+    + rewrite (push_kids_cons x f). apply (IH in_p (is_text_node x)); auto.
+      * now apply push_kids_nonempty.
+      * now rewrite has_open_push.
+      * now apply top_text_push.
+    + intro Hx'. rewrite Hx', andb_true_r in Hadj. apply negb_true_iff in Hadj. congruence.
+Qed.
+
+Theorem parse_ser_forest f :
+  forest_ok false f false = true -> parse (ser_forest f) = Some f.
+Proof.
+  intro H. unfold parse.
+  rewrite (normalize_no_cr _ (no_cr_forest f false false H)), (tokenize_forest f false H).
+  unfold build. rewrite (build_forest f false false [root_frame] H); try reflexivity; [|discriminate].
+  cbn. now rewrite app_nil_r, rev_involutive.
+Qed.
+
+(** parse (to_html v) = the expected DOM *)
+Theorem print_parse_roundtrip v :
+  wf false v = true -> parse (render v) = Some (fst (dom_of v FirstChild)).
+Proof.
+  intro H. unfold render. rewrite (to_html_dom v false FirstChild H). cbn [fst].
+  apply parse_ser_forest. apply (dom_of_ok v false FirstChild false H). discriminate.
+Qed.
